@@ -21,4 +21,4 @@ Definition stringify_json_shaped := ProofsSer.stringify_json_shaped.
 Definition stringify_parse_roundtrip := ProofsSer.stringify_parse_roundtrip.
 Definition gap_of_number_ws := ProofsSer.gap_of_number_ws.
 Definition marshal_agrees := ProofsSer.marshal_agrees.
-Definition symbol_wrapper_refuted := ProofsSer.symbol_wrapper_refuted.
+Definition symbol_wrapper_is_object := ProofsSer.symbol_wrapper_is_object.
